@@ -2292,22 +2292,22 @@ func MarshalRT(rt bgp.ExtendedCommunityInterface) (*api.RouteTarget, error) {
 	switch v := rt.(type) {
 	case *bgp.TwoOctetAsSpecificExtended:
 		r.Rt = &api.RouteTarget_TwoOctetAsSpecific{TwoOctetAsSpecific: &api.TwoOctetAsSpecificExtended{
-			IsTransitive: true,
-			SubType:      uint32(bgp.EC_SUBTYPE_ROUTE_TARGET),
+			IsTransitive: v.IsTransitive,
+			SubType:      uint32(v.SubType),
 			Asn:          uint32(v.AS),
 			LocalAdmin:   v.LocalAdmin,
 		}}
 	case *bgp.IPv4AddressSpecificExtended:
 		r.Rt = &api.RouteTarget_Ipv4AddressSpecific{Ipv4AddressSpecific: &api.IPv4AddressSpecificExtended{
-			IsTransitive: true,
-			SubType:      uint32(bgp.EC_SUBTYPE_ROUTE_TARGET),
+			IsTransitive: v.IsTransitive,
+			SubType:      uint32(v.SubType),
 			Address:      v.IPv4.String(),
 			LocalAdmin:   uint32(v.LocalAdmin),
 		}}
 	case *bgp.FourOctetAsSpecificExtended:
 		r.Rt = &api.RouteTarget_FourOctetAsSpecific{FourOctetAsSpecific: &api.FourOctetAsSpecificExtended{
-			IsTransitive: true,
-			SubType:      uint32(bgp.EC_SUBTYPE_ROUTE_TARGET),
+			IsTransitive: v.IsTransitive,
+			SubType:      uint32(v.SubType),
 			Asn:          v.AS,
 			LocalAdmin:   uint32(v.LocalAdmin),
 		}}
